@@ -7,7 +7,7 @@
    `current` is the tree as it is now; `prefix` / `pre_stopfix` are the variants before the
    fix commits 45b70e8 / 28ebc86 and are used only by the theorems labelled PRE-FIX. *)
 From Coq Require Import ZArith List Bool Permutation.
-From TV Require Import model.Workers proofs.WorkersInv proofs.WorkersProofs.
+From TV Require Import gen.WorkersIR model.Workers model.WorkersDenote proofs.WorkersInv proofs.WorkersProofs proofs.WorkersTie.
 Import ListNotations.
 Open Scope Z_scope.
 
@@ -135,3 +135,36 @@ Theorem C18_stop_graceful : forall cfg s s1 tr s',
   (pc (par s') <> PStopped ->
      exists e s2, graceful e = true /\ is_fault e = false /\ step cfg e s' = Some s2).
 Proof. exact stop_graceful_l. Qed.
+
+(* ---- the tie to the source: gen/WorkersIR.v is regenerated from python/tak/self_play.py on every run ---- *)
+
+(* the source denotes the configuration `current` (exit status on exception non-zero, join with a deadline; queue
+   bounds 2*workers / workers, `todo > 0`, `except queue.Full: break`, healthy exit codes {0, None}, non-blocking
+   sentinels, epilogue inside the try, and the order of all steps as model/Workers.v has them) *)
+Theorem C18_tie_denotes_current : denote workers_ir = Some current.
+Proof. exact workers_ir_denotes_current. Qed.
+(* the protocol steps with their guards read from the IR are the steps of the model *)
+Theorem C18_tie_steps_agree : forall e s, ir_step workers_ir e s = step current e s.
+Proof. exact tie_steps_agree. Qed.
+(* the parent's exit-code test is the model's, for every exit code *)
+Theorem C18_tie_exit_codes : forall st, raises (ir_exit_test workers_ir) (exit_code st) = bad_exit st.
+Proof. exact tie_timeout_exit_codes. Qed.
+(* the properties for the regenerated protocol (ir_reachable / ir_run / ir_step instead of the hand-written step) *)
+Theorem C18_tie_returns_exactly_N : forall s, ir_reachable workers_ir s -> outcome (par s) = OReturned ->
+  length (collected (par s)) = target (par s) /\ NoDup (collected (par s)) /\
+  Permutation (collected (par s)) (zseq (next_id (par s) - Z.of_nat (target (par s))) (target (par s))).
+Proof. exact tie_returns_exactly_N. Qed.
+Theorem C18_tie_failure_detected_partial : forall s tr s', ir_reachable workers_ir s -> ir_run workers_ir tr s = Some s' ->
+  no_ev is_begin tr -> no_ev is_midput tr -> outcome (par s) = ORunning -> intact s -> has_failed s ->
+  (gets tr >= outstanding s + 1)%nat ->
+  (outcome (par s') = OReturned /\ length (collected (par s')) = target (par s')) \/ outcome (par s') = ORaised.
+Proof. exact tie_failure_detected. Qed.
+Theorem C18_tie_fault_leaves_nonzero_exit : forall e s s', ir_step workers_ir e s = Some s' -> is_fault e = true -> has_failed s'.
+Proof. exact tie_fault_leaves_nonzero_exit. Qed.
+Theorem C18_tie_request_progress : forall s, ir_reachable workers_ir s ->
+  outcome (par s) = ORunning -> no_exit s -> intact s -> rdead s = false -> (nworkers s >= 1)%nat ->
+  exists e s', is_fault e = false /\ e <> ETimeout /\ ir_step workers_ir e s = Some s'.
+Proof. exact tie_request_progress. Qed.
+Theorem C18_tie_stop_never_blocked : forall s, stopping s ->
+  exists e s', is_stop_step e = true /\ ir_step workers_ir e s = Some s'.
+Proof. exact tie_stop_never_blocked. Qed.
